@@ -208,8 +208,14 @@ theorem linv_fire {s : St} (h : LInv s) {r d : Nat} {rest : List (Nat × Nat)} (
     exact ⟨p, hp, hd, by omega⟩
   have hq7 : ∀ r' p, (r', p) ∈ s.sched → p ≤ idleOf s r' ∧ idleOf s r' ≤ max s.now d := by
     intro r' p hm; have := h.q7 r' p hm; exact ⟨this.1, by omega⟩
+  -- no entry of a remote is later than the timeout of its current link-less period
+  have hlate : ∀ r' d', (r', d') ∈ s.queue → d' ≤ idleOf s r' + s.D := by
+    intro r' d' hm
+    obtain ⟨p, hp, hd', _⟩ := h.q6 r' d' hm
+    have := (h.q7 r' p hp).1
+    omega
   unfold fire
-  by_cases hc : (s.reg.contains r && linkless s r) = true
+  by_cases hc : (s.reg.contains r && linkless s r && !(rest.any (fun e => e.1 == r))) = true
   · rw [if_pos hc]
     simp only [Bool.and_eq_true] at hc
     refine ⟨⟨h.dpos, hrest, hq2, ?_, ?_, ?_, hq6, hq7⟩, hw', rfl, rfl⟩
@@ -226,7 +232,7 @@ theorem linv_fire {s : St} (h : LInv s) {r d : Nat} {rest : List (Nat × Nat)} (
       refine ⟨h.q4 a b hab, ?_⟩
       have : b ≠ r := by
         intro e
-        have hl := (linkless_iff s r).mp hc.2 a
+        have hl := (linkless_iff s r).mp hc.1.2 a
         exact hl (e ▸ hab)
       simp [this]
     · intro r' hr'
@@ -235,13 +241,28 @@ theorem linv_fire {s : St} (h : LInv s) {r d : Nat} {rest : List (Nat × Nat)} (
   · rw [if_neg hc]
     refine ⟨⟨h.dpos, hrest, hq2, ?_, h.q4, h.q5, hq6, hq7⟩, hw', rfl, rfl⟩
     intro r' hr' _ hl
-    have := h.q3 r' hr' (by simp) hl
+    have hr'' : r' ∈ s.reg := hr'
+    have := h.q3 r' hr'' (by simp) hl
     rw [hq, List.mem_cons] at this
     rcases this with e | e
     · cases e
-      exfalso; apply hc
-      rw [Bool.and_eq_true]
-      exact ⟨by simpa using (show r ∈ s.reg from hr'), hl⟩
+      -- the popped entry is the current one: it was spared only because a later one is queued, which must be it
+      have hany : rest.any (fun e => e.1 == r) = true := by
+        cases ha : rest.any (fun e => e.1 == r) with
+        | true => rfl
+        | false =>
+          exfalso; apply hc
+          simp only [Bool.and_eq_true]
+          exact ⟨⟨by simpa using hr'', hl⟩, by simp [ha]⟩
+      rw [List.any_eq_true] at hany
+      obtain ⟨⟨a, b⟩, hab, hra⟩ := hany
+      have hra' : a = r := by simpa using hra
+      subst hra'
+      have h1 := hlate a b (hin _ hab)
+      have h2 := hhead _ hab
+      simp at h2
+      have : b = idleOf s a + s.D := by omega
+      rw [this] at hab; exact hab
     · exact e
 
 theorem advLoop_nil (fuel target : Nat) (s : St) (hq : s.queue = []) :
@@ -318,7 +339,7 @@ theorem closed_of_advLoop (fuel target : Nat) (s : St) (r t : Nat)
             simp only [Bool.and_eq_true] at hc
             simp at hm
             obtain ⟨rfl, rfl⟩ := hm
-            exact ⟨List.mem_cons_self, hc.2, by simpa using hc.1, hd⟩
+            exact ⟨List.mem_cons_self, hc.1.2, by simpa using hc.1.1, hd⟩
           · simp at hm
         · have := ih _ hm
           have hq' : (fire s r0 d rest).1.queue = rest := by unfold fire; split <;> rfl
@@ -331,6 +352,42 @@ theorem closed_of_advLoop (fuel target : Nat) (s : St) (r t : Nat)
           have := this.2.1
           simp only [linkless, hl'] at this ⊢
           exact this
+      · rw [advLoop_notdue _ _ _ hq hd] at hm; cases hm
+
+/-- … and then exactly the full delay after its current link-less period began -/
+theorem closed_time_of_advLoop (fuel target : Nat) {s : St} (h : LInv s)
+    (hw : ∀ r' d', (r', d') ∈ s.queue → s.now ≤ d') (r t : Nat)
+    (hm : (r, Ev.closed t) ∈ (advLoop fuel target s).2) : t = idleOf s r + s.D := by
+  induction fuel generalizing s with
+  | zero => simp [advLoop] at hm
+  | succ fuel ih =>
+    match hq : s.queue with
+    | [] => rw [advLoop_nil _ _ _ hq] at hm; cases hm
+    | (r0, d) :: rest =>
+      by_cases hd : d ≤ target
+      · rw [advLoop_due _ _ _ hq hd] at hm
+        simp only [List.mem_append] at hm
+        rcases hm with hm | hm
+        · unfold fire at hm
+          split at hm
+          · rename_i hc
+            simp only [Bool.and_eq_true] at hc
+            simp at hm
+            obtain ⟨rfl, rfl⟩ := hm
+            have := h.q3 r (by simpa using hc.1.1) (by simp) hc.1.2
+            rw [hq, List.mem_cons] at this
+            rcases this with e | e
+            · cases e; rfl
+            · exfalso
+              have hn : rest.any (fun e => e.1 == r) = false := by simpa using hc.2
+              rw [List.any_eq_false] at hn
+              exact hn _ e (by simp)
+          · simp at hm
+        · obtain ⟨h1, hw1, _, _⟩ := linv_fire h hq hw
+          have := ih h1 hw1 hm
+          have hi : idleOf (fire s r0 d rest).1 r = idleOf s r := by unfold fire; split <;> rfl
+          have hD : (fire s r0 d rest).1.D = s.D := by unfold fire; split <;> rfl
+          rw [this, hi, hD]
       · rw [advLoop_notdue _ _ _ hq hd] at hm; cases hm
 
 /-! ### every step keeps the invariant -/
@@ -422,5 +479,11 @@ theorem closed_of_step (s : St) (op : Op) (r t : Nat) (hm : (r, Ev.closed t) ∈
   | unlink r' l => simp only [step] at hm; (repeat' split at hm) <;> simp at hm
   | rsync r' l => simp only [step] at hm; (repeat' split at hm) <;> simp at hm
   | ev l => simp only [step] at hm; simp at hm
+
+theorem closed_time_of_step {s : St} (h : PInv s) (op : Op) (r t : Nat) (hm : (r, Ev.closed t) ∈ (step s op).2.2) :
+    t = idleOf s r + s.D := by
+  obtain ⟨⟨k, rfl⟩, _⟩ := closed_of_step s op r t hm
+  simp only [step] at hm
+  exact closed_time_of_advLoop _ _ h.toLInvX (fun r d hm => Nat.le_of_lt (h.q1 r d hm)) r t hm
 
 end SwimVerif.PruneRt
